@@ -29,13 +29,20 @@ Section Q.
     expand_parts f e rest mode false (join_last fs [] true).
   Proof. intros [->| ->]; reflexivity. Qed.
 
-  Lemma eq_dq f e v rest mode first fs :
+  (* the content of a double-quoted part of literal quotings is never a run of $@ *)
+  Lemma dq_not_at v t : all_some (map dq_inner_text v) = Some t -> only_at v = false.
+  Proof.
+    unfold only_at. destruct v as [|p v]; [reflexivity|]. cbn [map all_some length Nat.eqb negb forallb andb].
+    destruct p as [s|tok w| | |]; cbn [dq_inner_text]; try discriminate; reflexivity.
+  Qed.
+
+  Lemma eq_dq f e v rest mode first fs : only_at v = false ->
     expand_parts (S f) e (WQuote 34 v :: rest) mode first fs =
     match expand f e v (N.lor (N.land mode mArith) mQuote) with
     | Ok (e1, w) => expand_parts f e1 rest mode false (merge_fields fs w)
     | Err x => Err x | Panic p => Panic p | OutOfFuel => OutOfFuel
     end.
-  Proof. reflexivity. Qed.
+  Proof. intros H. cbn [Expand.expand_parts]. change (34 =? 92) with false. change (34 =? 39) with false. change (34 =? 34) with true. cbv iota. cbn [orb]. rewrite H. reflexivity. Qed.
 
   Lemma eq_lit_q f e s rest mode first fs :
     mbit mode mQuote = true -> mbit mode mAssign = false ->
@@ -128,7 +135,7 @@ Section Q.
         * unfold all_quoted in *. rewrite forallb_app. cbn [forallb snd andb]. apply andb_true_intro; split; assumption.
         * unfold funquote in *. rewrite map_app, concat_app. cbn [map concat fst app]. f_equal; assumption.
         * intros _. discriminate.
-        * rewrite eq_dq, eq_expand, mode_dq_quote. cbv iota.
+        * rewrite (eq_dq _ _ _ _ _ _ _ (dq_not_at v t Ep)), eq_expand, mode_dq_quote. cbv iota.
           match goal with |- match ?X with _ => _ end = _ =>
             replace X with (@Ok (env * list field) (env * xerr) (e, [([], true) :: segs])) by (symmetry; exact Hex) end.
           unfold merge_fields. rewrite upd_last_snoc, app_nil_r.
